@@ -212,7 +212,7 @@ def gen_cases(rng, tier, minsz):
         add("small", 5, base=b)
         add("fill", 4, base=b)
     n = dict(small=70, fill=45, edge=24, big=8, mixed=18, two=30) if quick else \
-        dict(small=3000, fill=3000, edge=1200, big=300, mixed=800, two=1500)
+        dict(small=2000, fill=2000, edge=800, big=150, mixed=400, two=1000)
     for _ in range(n["small"]):
         add("small", rng.randrange(1, 13))
     for _ in range(n["fill"]):
@@ -225,7 +225,7 @@ def gen_cases(rng, tier, minsz):
         add("mixed", rng.choice([20, 50, 170, 171, 255, 256, 400, 1000]))
     for _ in range(n["two"]):
         add(rng.choice(["small", "fill", "edge"]), rng.randrange(1, 10), two=True)
-    for cnt in ([3000, 10000] if quick else [1000, 2000, 3000, 5000, 10000] * 4):
+    for cnt in ([3000, 10000] if quick else [1000, 3000, 10000] * 4):
         add(rng.choice(["tiny", "mixed"]), cnt)
     return cases
 
@@ -426,10 +426,21 @@ def run(ctx):
         rp = json.load(open(ctx.replay))
         det = rp.get("detail", {})
         hc = det.get("failing_input") or det.get("case")
-        hc = dict(hc, dir=scratch)
-        r = vlib.run_harness(H, "c12", [hc])[0]
-        print(json.dumps({k: v for k, v in r.items() if k != "gcols"}, indent=1)[:6000])
-        return dict(violations=[], known=[], coverage=dict(evaluations=1, replayed=ctx.replay))
+        if not hc or "datasets" not in hc or any("elems" not in d for d in hc["datasets"]):
+            raise RuntimeError("replay file carries only a case summary (no element bytes); re-run the check with the same VERIF_SEED")
+        case = dict(sbver=hc.get("sbver", 2), datasets=[dict(name=d["name"], base=d["base"], chunk=d["chunk"], kind="replay",
+                                                             elems=[(bytes.fromhex(e), len(e) // 2) for e in d["elems"]]) for d in hc["datasets"]])
+        r = vlib.run_harness(H, "c12", [harness_case(case, scratch)])[0]
+        probs, facts = check_case(case, r, params)
+        print("implementation observables:")
+        print(json.dumps({k: v for k, v in r.items() if k != "gcols"}, indent=1)[:4000])
+        for g in r.get("gcols") or []:
+            print("collection at %d, %d bytes: %s..." % (g["addr"], len(g["hex"]) // 2, g["hex"][:160]))
+        print("specification verdict: %s" % ("VIOLATED" if probs else "holds"))
+        for p_ in probs[:10]:
+            print("  [%s] %s" % (p_["cls"], p_["msg"]))
+        return dict(violations=[dict(what=p_["msg"], failing_input=harness_case(case, "<scratch>"), violation_class=p_["cls"]) for p_ in probs[:1]],
+                    known=[], coverage=dict(evaluations=1, replayed=ctx.replay))
     cases = gen_cases(rng, ctx.tier, minsz)
     t0 = time.time()
     results = vlib.run_harness_parallel(H, "c12", [harness_case(c, scratch) for c in cases], workers=8)
@@ -442,12 +453,13 @@ def run(ctx):
     exact_defs, hash_defs, dt_defs = [], [], []
     exact_idx, hash_idx, dt_idx = [], [], []
     dt_seen, ncoq_wf = set(), 0
-    budget = 50000 if ctx.tier != "thorough" else 1500000     # bytes of exact transport (0.1 ms per byte in coqc)
-    hbudget = 1200000 if ctx.tier != "thorough" else 100000000  # bytes of checksummed comparison (5 us per byte)
+    budget = 50000 if ctx.tier != "thorough" else 1300000     # bytes of exact transport (0.1 ms per byte in coqc)
+    hbudget = 1200000 if ctx.tier != "thorough" else 40000000  # bytes of checksummed comparison (5 us per byte)
     skipped_model = 0
     limit_no_read = 0
     nontrivial = set()
     spec_bad = set()
+    spec_viol = []
     # transport budgets go first to the cases the byte-exact comparison cannot take (large collections, many
     # collections), then to the rest in generation order
     PRIO = dict(tiny=0, big=1, mixed=2, edge=3, fill=4, small=5)
@@ -477,8 +489,8 @@ def run(ctx):
                 known_hits[fid] += 1
                 continue
             spec_bad.add(ci)
-            if len(viol) < 5:
-                viol.append(dict(what=p["msg"], failing_input=harness_case(case, "<scratch>") if sum(len(d["elems"]) for d in case["datasets"]) <= 64 else case_summary(case),
+            if len(spec_viol) < 2000:
+                spec_viol.append(dict(what=p["msg"], case_bytes=sum(e[1] + 16 for d in case["datasets"] for e in d["elems"]), failing_input=harness_case(case, "<scratch>") if sum(len(d["elems"]) for d in case["datasets"]) <= 64 else case_summary(case),
                                  violation_class=p["cls"], impl={k: v for k, v in p.items() if k not in ("cls", "msg")}))
         if "cols" not in facts:
             continue
@@ -540,6 +552,9 @@ def run(ctx):
                 dt_seen.add(key)
                 dt_defs.append('(%d,"%s")' % key)
                 dt_idx.append(ci)
+    # the smallest failing inputs make the replay
+    spec_viol.sort(key=lambda x: x["case_bytes"])
+    viol += spec_viol[:5]
     # ---- Coq evaluation
     v = ["From HV Require Import Base.Prelude Model.GHeap Model.GHeapTie.\nOpen Scope string_scope.\n"]
     labels = []
